@@ -156,6 +156,12 @@ class SolveLoop:
             if self.in_loop(s) and isinstance(st, ast.Expr) and is_method_call(st.value, "append") and isinstance(st.value.func.value, ast.Name) and len(st.value.args) == 1:
                 a = st.value.args[0]
                 recv = st.value.func.value.id
+                if isinstance(a, ast.Name):
+                    # a temporary holding the appended value (`t = times[-1] + dt; times.append(t)`)
+                    defs = [q for q in ff.order if q.index < s.index and q.loops == s.loops and isinstance(q.stmt, ast.Assign) and len(q.stmt.targets) == 1
+                            and isinstance(q.stmt.targets[0], ast.Name) and q.stmt.targets[0].id == a.id]
+                    if defs:
+                        a = defs[-1].stmt.value
                 if U(ff.resolved(st, a)).endswith(".z"):
                     out["path"] = recv
                 elif isinstance(a, ast.BinOp) and isinstance(a.op, ast.Add) and f"{recv}[-1]" in (U(a.left), U(a.right)):
